@@ -68,3 +68,71 @@ N("spec-n-from-ranges-match", U, """        if (ranges_number := len(ranges)) ==
         if len(ranges) > 1:
             return UnionSpecifier(tuple(ranges))
         return ranges[0]""", props=["C01", "C05", "C14"])
+
+# ---------------------------------------------------------------- C19
+G = "specifiers/generic.py"
+M("gen-and-eqne-swap", G, """            if this.value == that.value:
+                return EmptySpecifier()
+            return this
+        elif (this.op, that.op) == ("in", "not in")""", """            if this.value == that.value:
+                return EmptySpecifier()
+            return that
+        elif (this.op, that.op) == ("in", "not in")""", fire=["C19"])
+M("gen-and-eqin-dir", G, """            if this.value in that.value:
+                return this
+            return EmptySpecifier()""", """            if that.value in this.value:
+                return this
+            return EmptySpecifier()""", fire=["C19"])
+M("gen-and-nenotin", G, """("!=", "not in") and this.value in that.value:
+            return that""", """("!=", "not in") and this.value in that.value:
+            return this""", fire=["C19"])
+M("gen-or-nene-any", G, """        elif this.op == "!=" and that.op == "!=":
+            return AnySpecifier()""", """        elif this.op == "!=" and that.op == "!=":
+            return this""", fire=["C19"])
+M("gen-or-eqne", G, """        if this.op == "==" and that.op == "!=":
+            if this.value == that.value:
+                return AnySpecifier()
+            return that""", """        if this.op == "==" and that.op == "!=":
+            if this.value == that.value:
+                return AnySpecifier()
+            return this""", fire=["C19"])
+M("gen-or-nenotin", G, """            if this.value in that.value:
+                return this
+            return AnySpecifier()""", """            if this.value in that.value:
+                return that
+            return AnySpecifier()""", fire=["C19"])
+M("gen-or-eqin", G, """        elif this.op == "==" and that.op == "in" and this.value in that.value:
+            return that""", """        elif this.op == "==" and that.op == "in":
+            return that""", fire=["C19"])
+M("gen-invert-in", G, '''            "in": "not in",
+            "<": ">=",''', '''            "in": "in",
+            "<": ">=",''', fire=["C19"])
+M("gen-invert-lt", G, '''            "<": ">=",
+            "<=": ">",''', '''            "<": ">",
+            "<=": ">",''', fire=["C19"])
+M("gen-contains-swap", G, "return self._op_map[self.op](value, self.value)", "return self._op_map[self.op](self.value, value)", fire=["C19"])
+M("gen-opmap-in", G, '"in": lambda lhs, rhs: lhs in rhs,', '"in": lambda lhs, rhs: rhs in lhs,', fire=["C19"])
+M("spec-empty-contains", S, """    def is_empty(self) -> bool:
+        return True
+
+    def __contains__(self, value: str) -> bool:
+        return False""", """    def is_empty(self) -> bool:
+        return True
+
+    def __contains__(self, value: str) -> bool:
+        return True""", fire=["C19"])
+N("gen-n-and-inin-wider", G, """        elif (this.op, that.op) == ("in", "not in") and this.value == that.value:
+            return EmptySpecifier()""", """        elif (this.op, that.op) == ("in", "not in") and this.value in that.value:
+            return EmptySpecifier()""", props=["C19"])
+N("gen-n-sorted-swap", G, """        this, that = sorted(
+            (self, other), key=lambda x: self.op_order.get(x.op, len(self.op_order))
+        )
+        if this.op == that.op == "==":""", """        this, that = self, other
+        if self.op_order.get(that.op, len(self.op_order)) < self.op_order.get(this.op, len(self.op_order)):
+            this, that = that, this
+        if this.op == that.op == "==":""", props=["C19"])
+N("gen-n-and-chain", G, """        elif (this.op, that.op) == ("==", "in"):
+            if this.value in that.value:
+                return this
+            return EmptySpecifier()""", """        elif this.op == "==" and that.op == "in":
+            return this if this.value in that.value else EmptySpecifier()""", props=["C19"])
